@@ -75,6 +75,8 @@ def P0 : Prims where
   callKw _ _ _ _ := .error .invalidOperation
   filter _ _ _ _ := .error (.named "UnknownFilter")
   test _ _ _ _ := .error (.named "UnknownTest")
+  foldsVariant _ := true
+  codegenSpecial _ := true
 
 theorem P0_lawful : P0.Lawful where
   add := by intro a b v h; cases a <;> cases b <;> simp [P0] at h; subst h; simp
@@ -112,7 +114,7 @@ theorem asConst_sound (P : Prims) (hP : P.Lawful) (e : Expr) (hw : e.WF) (v : V)
 
 example : e_and.WF ∧ asConst P0 e_and = some (.int 0) := by
   refine ⟨by simp [e_and, Expr.WF], ?_⟩
-  simp [e_and, asConst, evalBinop, P0]
+  simp [e_and, asConst, evalBinop, P0, gate]
 
 /-- contrapositive: a run-time failure is never folded into a value -/
 theorem fold_never_masks_error (P : Prims) (hP : P.Lawful) (e : Expr) (hw : e.WF) (m : Mode) (ρ : Env)
@@ -135,7 +137,7 @@ theorem exec_compileTop (P : Prims) (hP : P.Lawful) (m : Mode) (ρ : Env) (e : E
     exec P m ρ (compileTop P e) = evalRt P m ρ e := by
   unfold compileTop
   split
-  · next v hv => simp [exec, asConst_sound P hP e hw v hv m ρ]
+  · next v hv => simp [exec, asConst_sound P hP e hw v (gate_some hv) m ρ]
   · simp [exec, fold_transparent P hP m ρ e hw]
 
 example : e_chain.WF ∧ exec P0 .strict ρ0 (compileTop P0 e_chain) = .error .invalidOperation := by
@@ -149,10 +151,11 @@ example : e_chain.WF ∧ exec P0 .strict ρ0 (compileTop P0 e_chain) = .error .i
 /-- when the folder gives up, the emitted code is the run-time code of the expression -/
 theorem asConst_none_is_runtime (P : Prims) (m : Mode) (ρ : Env) (e : Expr) (h : asConst P e = none) :
     compileTop P e = .runtime e ∧ exec P m ρ (compileTop P e) = evalC P m ρ e := by
-  simp [compileTop, h, exec]
+  have : foldFirst P e = none := by unfold foldFirst gate; split <;> simp [h]
+  simp [compileTop, this, exec]
 
 example : asConst P0 e_div0 = none := by
-  simp [e_div0, asConst, evalBinop, P0, Except.toOpt]
+  simp [e_div0, asConst, evalBinop, P0, Except.toOpt, gate]
 
 /-- `compileTop` is a total function (loading has no error channel in the folder); if evaluating
     the expression fails, nothing was folded at the top, the emitted code is run-time code, and
@@ -192,7 +195,7 @@ example : Hoist P0 ρ0 e_and (.bin .and (.var "v0") (.const (.int 1))) := by
 /-- the whole literal expression `0 and 1` hoisted -/
 example : Hoist P0 ρ0 e_and (.var "v0") := by
   simp only [e_and, Hoist]
-  exact Or.inr ⟨"v0", .int 0, rfl, by simp [asConst, evalBinop, P0], by simp [ρ0]⟩
+  exact Or.inr ⟨"v0", .int 0, rfl, by simp [asConst, evalBinop, P0, gate], by simp [ρ0]⟩
 
 /-- `[7, 8][0]`: item access is never folded, its operands are; hoisting the index keeps the value -/
 example : Hoist P0 ρ0 (.getItem (.list (.cons (.const (.int 7)) (.cons (.const (.int 8)) .nil))) (.const (.int 0)))
@@ -202,7 +205,7 @@ example : Hoist P0 ρ0 (.getItem (.list (.cons (.const (.int 7)) (.cons (.const 
   · simp only [Hoist, HoistList]
     exact ⟨_, _, rfl, Or.inl ⟨_, rfl, _, _, rfl, Or.inl rfl, _, _, rfl, Or.inl rfl, rfl⟩,
       Or.inr ⟨"v0", .int 0, rfl, by simp [asConst], by simp [ρ0]⟩⟩
-  · simp [evalC, folded, asConst, constValues, lookup, ρ0, getItemInstr, P0]
+  · simp [evalC, folded, foldFirst, gate, asConst, constValues, lookup, ρ0, getItemInstr, P0]
 
 /-- `7 if 0` (no `else`): the silent undefined -/
 example : evalC P0 .strict ρ0 (.ifExpr (.const (.int 0)) (.const (.int 7)) .none) = .ok .silent := by
@@ -233,13 +236,16 @@ theorem static_kwargs_eq_dynamic (P : Prims) (hP : P.Lawful) (m : Mode) (ρ : En
 /-- the static path really is taken: with constant keyword arguments the emitted code does not
     evaluate them -/
 theorem static_kwargs_path (P : Prims) (m : Mode) (ρ : Env) (name : String) (pos : Exprs) (kws : Kws)
+    (hs : P.codegenSpecial "static-kwargs" = true)
     (ks : List (String × V)) (hk : constKws kws = some ks) :
     evalC P m ρ (.call name pos kws) =
       (match evalCList P m ρ pos with
        | .error e => .error e
        | .ok ps => P.callKw m name ps ks) := by
-  rw [evalC]; simp only [hk]
+  rw [evalC]; simp only [hk, hs, gate]
   cases evalCList P m ρ pos <;> rfl
+
+example : P0.codegenSpecial "static-kwargs" = true := rfl
 
 example : constKws (.cons "a" (.const (.int 1)) (.cons "b" (.const (.str "x")) .nil))
     = some [("a", .int 1), ("b", .str "x")] := by
@@ -259,13 +265,52 @@ theorem C04_holds : C04_full := by
   · intro err h
     exact (load_never_fails_on_const_error P hP m ρ e hw err h).2
 
-/-- the hypotheses are satisfiable by the realistic instance: the transcription of `value/ops.rs`
-    that the driver runs against the real engine is `Lawful`, so every theorem above applies to it -/
+/-! ## the concrete, source-tied instance
+
+`Conc.prims` is the transcription of `value/ops.rs` & co. that the driver runs against the real
+engine on every harness case (i128 range checks, string concat/repeat, exact binary64, `==`/`Ord`,
+`in`, map construction with duplicate keys, truthiness, item access, slices, the modelled filters
+and tests), with the folder's dispatch tables read from the regenerated `MJ.Gen` tables. -/
+
+/-- it satisfies the laws the theorems assume -/
 theorem concrete_prims_lawful : Conc.prims.Lawful := Conc.prims_lawful
 
-example : C04_full → ∀ (m : Mode) (ρ : Env) (e e' : Expr), e.WF → Hoist Conc.prims ρ e e' →
-    exec Conc.prims m ρ (compileTop Conc.prims e') = exec Conc.prims m ρ (compileTop Conc.prims e) :=
-  fun h m ρ e e' hw hh => (h Conc.prims concrete_prims_lawful m ρ e hw).1 e' hh
+/-- its folder dispatches over the arms of `Expr::as_const` and the special cases of
+    `compile_expr`/`compile_call_args` as regenerated from the source -/
+theorem concrete_tables_are_source :
+    (∀ v, Conc.prims.foldsVariant v = MJ.Gen.asConstArms.contains v) ∧
+    (∀ s, Conc.prims.codegenSpecial s = MJ.Gen.codegenSpecials.contains s) :=
+  ⟨fun _ => rfl, fun _ => rfl⟩
+
+/-- the full statement for the concrete model: no hypothesis about the value operations is left -/
+theorem C04_concrete (m : Mode) (ρ : Env) (e : Expr) (hw : e.WF) :
+    (∀ e', Hoist Conc.prims ρ e e' →
+      exec Conc.prims m ρ (compileTop Conc.prims e') = exec Conc.prims m ρ (compileTop Conc.prims e)) ∧
+    (∀ err, exec Conc.prims m ρ (compileTop Conc.prims e) = .error err → compileTop Conc.prims e = .runtime e) ∧
+    (∀ err, evalRt Conc.prims m ρ e = .error err → exec Conc.prims m ρ (compileTop Conc.prims e) = .error err) :=
+  C04_holds Conc.prims concrete_prims_lawful m ρ e hw
+
+example : (Expr.bin .and (.const (.int 0)) (.const (.int 1))).WF := by simp [Expr.WF]
+
+/-- duplicate keys: in the concrete model the LAST pair of a map literal determines the value of
+    its key - on the folder's side (`Map::as_const`) and on the VM's side (`BuildMap`) alike, since
+    both go through the same `mkMap` in source order (the seeded change C04-1 broke exactly this in
+    the VM) -/
+theorem concrete_map_last_wins (ps : List (V × V)) (k v : V) :
+    ∃ m, Conc.prims.mkMap (ps ++ [(k, v)]) = .map m ∧ Conc.mapGet k m = some v :=
+  Conc.mkMap_last_wins ps k v
+
+example : ∃ m, Conc.prims.mkMap ([(.str "a", .int 1), (.str "b", .int 5)] ++ [(.str "a", .int 2)]) = .map m ∧
+    Conc.mapGet (.str "a") m = some (.int 2) :=
+  concrete_map_last_wins _ _ _
+
+/-- … and the last keyword argument of a name wins (`f(a=1, a=2)`) -/
+theorem concrete_kwargs_last_wins (k : String) (v : V) (m : List (String × V)) :
+    (Conc.kwInsert k v m).lookup k = some v :=
+  Conc.kwInsert_self k v m
+
+example : (Conc.kwInsert "a" (.int 2) [("a", .int 1)]).lookup "a" = some (.int 2) :=
+  concrete_kwargs_last_wins _ _ _
 
 /-! ## the defect that was fixed (`fix:` commit 25af7fa)
 
